@@ -553,3 +553,60 @@ func (e *Env) paramIsScore(k *scoreKit, h *types.Func, i int, allowed map[types.
 	}
 	return n > 0 && okAll
 }
+
+// roundUpReference pins the v3 round-up helper to the algorithm of the CVSS
+// v3.1 specification, Appendix A:
+//
+//	int_input = round_to_nearest_integer(input * 100000)
+//	if (int_input % 10000) == 0 { return int_input / 100000.0 }
+//	return (floor(int_input / 10000) + 1) / 10.0
+//
+// (the Score terms treat the helper as an uninterpreted symbol, so its body is compared here).
+func (e *Env) roundUpReference(k *scoreKit, rule string) {
+	c := e.C
+	f := k.round["roundUp"]
+	if f == nil {
+		c.Fail(rule, k.ver.Pkg+" roundUp", "", "round-up helper not found")
+		return
+	}
+	who := fname(f)
+	leaves, err := ir.Leaves(e.P.SSAFunc(f), ir.LeafOptions{})
+	if err != nil {
+		c.Undecided(rule, who, e.P.Pos(f.Pos()), err.Error())
+		return
+	}
+	intT := types.Typ[types.Int]
+	r := k.mathCall("Round", ir.Mul(ir.Param(0), fl(100000)))
+	conv := &ir.Term{Op: ir.OConv, Str: "int", Args: []*ir.Term{r}}
+	g := ir.Bin("==", ir.Bin("%", conv, ir.Const(constant.MakeInt64(10000), intT)), ir.Const(constant.MakeInt64(0), intT))
+	ref := []refLeaf{
+		{"already a multiple of 0.1", []*ir.Term{g}, ir.Bin("/", r, fl(100000))},
+		{"round up", []*ir.Term{ir.NotCond(g)}, ir.Bin("/", ir.Add(k.mathCall("Floor", ir.Bin("/", r, fl(10000))), fl(1)), fl(10))},
+	}
+	used := make([]bool, len(ref))
+	for i, lf := range leaves {
+		matched := false
+		for j, rl := range ref {
+			if !ir.Consistent(lf.Guards, rl.guards) {
+				continue
+			}
+			matched = true
+			used[j] = true
+			cons := fmt.Sprintf("%s branch %q", who, rl.name)
+			if len(lf.Ret) == 1 && lf.Ret[0].Key() == rl.ret.Key() {
+				c.Ok(rule, cons, e.P.Pos(lf.Pos), "equals Appendix A: "+rl.ret.Pretty())
+			} else {
+				a, b := ir.Diff(lf.Ret[0], rl.ret)
+				c.Fail(rule, cons, e.P.Pos(lf.Pos), fmt.Sprintf("round-up helper differs from the specification's algorithm: found %s, expected %s", clip(a), clip(b)))
+			}
+		}
+		if !matched {
+			c.Fail(rule, fmt.Sprintf("%s path #%d", who, i), e.P.Pos(lf.Pos), "path condition is not the specification's 'int_input % 10000 == 0' test: "+lf.String())
+		}
+	}
+	for j, rl := range ref {
+		if !used[j] {
+			c.Fail(rule, fmt.Sprintf("%s branch %q", who, rl.name), e.P.Pos(f.Pos()), "no path of the helper corresponds to this branch of the specification's algorithm")
+		}
+	}
+}
